@@ -1442,4 +1442,64 @@ pub mod verif {
             self.cmd_rx.try_recv().ok().map(mirror)
         }
     }
+
+    // ---- C33/C34: the real `Daser` worker loop ----
+
+    pub const MAX_SAMPLES_NEEDED: usize = super::MAX_SAMPLES_NEEDED;
+    pub const PRUNER_THRESHOLD: u64 = super::PRUNER_THRESHOLD;
+
+    /// C33: the private `random_indexes`
+    pub fn random_indexes(square_width: u16, max_samples_needed: usize) -> Vec<(u16, u16)> {
+        super::random_indexes(square_width, max_samples_needed).into_iter().collect()
+    }
+
+    /// C33/C34: the real `Daser` (`Worker::run` spawned by `Daser::start`) behind its
+    /// crate-private command API, publishing into an event channel owned here.
+    pub struct VerifDaser {
+        daser: Daser,
+        events: crate::events::EventChannel,
+    }
+
+    /// Must be called inside a tokio runtime.
+    pub fn start_daser<S: Store + 'static>(
+        p2p: Arc<P2p>,
+        store: Arc<S>,
+        sampling_window: Duration,
+        concurrency_limit: usize,
+        additional_headersub_concurrency: usize,
+    ) -> Result<(VerifDaser, crate::events::EventSubscriber), String> {
+        let events = crate::events::EventChannel::new();
+        let sub = events.subscribe();
+        let daser = Daser::start(DaserArgs {
+            p2p,
+            store,
+            event_pub: events.publisher(),
+            sampling_window,
+            concurrency_limit,
+            additional_headersub_concurrency,
+        })
+        .map_err(|e| e.to_string())?;
+        Ok((VerifDaser { daser, events }, sub))
+    }
+
+    impl VerifDaser {
+        pub fn subscribe(&self) -> crate::events::EventSubscriber {
+            self.events.subscribe()
+        }
+        pub async fn want_to_prune(&self, height: u64) -> Result<bool, String> {
+            self.daser.want_to_prune(height).await.map_err(|e| e.to_string())
+        }
+        pub async fn update_highest_prunable_block(&self, value: u64) -> Result<(), String> {
+            self.daser.update_highest_prunable_block(value).await.map_err(|e| e.to_string())
+        }
+        pub async fn update_number_of_prunable_blocks(&self, value: u64) -> Result<(), String> {
+            self.daser.update_number_of_prunable_blocks(value).await.map_err(|e| e.to_string())
+        }
+        pub fn stop(&self) {
+            self.daser.stop()
+        }
+        pub async fn join(&self) {
+            self.daser.join().await
+        }
+    }
 }
